@@ -76,7 +76,18 @@ def hand_assembled(rng):
   A, K, I = daglish.Attr, daglish.Key, daglish.Index
   inner = fdl.Config(l2.Ka, p=1, q=[1, 2])
   old = fdl.Config(l2.fd, x=inner, y=[inner, {"k": fdl.Config(l2.fa, 7)}], z=3)
-  v = rng.randint(0, 6)
+  v = rng.randint(0, 7)
+  if v == 7:
+    # dict keys that are not ASCII identifiers (some equal after Unicode normalisation, some alphanumeric but
+    # not allowed in identifiers) on paths that need alias variables
+    keys = rng.sample(["\ufb01", "fi", "m\u00b2", "\u00bd", "caf\u00e9", "x y", "\u4e2d"], 3)
+    old3 = fdl.Config(l2.fd, a={k: fdl.Config(l2.fa, i) for i, k in enumerate(keys)}, z=0)
+    changes = (diffing.ModifyValue((A("a"), K(keys[0])), fdl.Config(l2.Ka, p=9)),
+               diffing.ModifyValue((A("a"), K(keys[1])), 5),
+               diffing.SetValue((A("c"),), Ref("old", (A("a"), K(keys[0])))),
+               diffing.SetValue((A("d"),), Ref("old", (A("a"), K(keys[1])))),
+               diffing.ModifyValue((A("a"), K(keys[2]), A("a")), Ref("old", (A("a"), K(keys[1])))))
+    return old3, diffing.Diff(changes, ()), f"hand#{v}"
   if v == 5:
     # a chain of new shared values, each holding the next; the callables (hence the variable names
     # shared_<callable>) are drawn at random, so the names sort against the dependency order in some draws
@@ -352,7 +363,7 @@ def run(tier: str, seed: int) -> Result:
   rng = random.Random(seed * 393342743 + 13)
   res = Result()
   res.rule = ("diffs produced by build_diff over the pair generator of C10 (labelled rewrites, tuple rewrites, "
-              "unrelated pairs) plus 7 families of hand-assembled diffs and nested-shared pairs (new shared values referring to one another, "
+              "unrelated pairs) plus 8 families of hand-assembled diffs and nested-shared pairs (new shared values referring to one another, "
               "references into moved or replaced parts of old, callable change with deletes and sets on one parent, "
               "tags with value changes) x {explicit, short} naming x {old supplied, not supplied}; the emitted "
               "fiddler is compiled and run on a copy of old and compared with apply_diff; non-trivial = non-empty diff")
